@@ -102,6 +102,8 @@ func (e *executableWorkflow) Execute(ctx context.Context, serializedInput any) (
 		callableFunctions: e.callableFunctions,
 		dag:               e.dag.Clone(),
 		runningSteps:      make(map[string]step.RunningStep, len(e.dag.ListNodes())),
+		completedSteps:    make(map[string]struct{}, len(e.dag.ListNodes())),
+		notifiedStages:    make(map[string]string, len(e.dag.ListNodes())),
 		outputDataChannel: make(chan outputDataType, 1),
 		outputDone:        false,
 		waitingOutputs:    outputNodes,
@@ -145,7 +147,7 @@ func (e *executableWorkflow) Execute(ctx context.Context, serializedInput any) (
 					waitingForInputText = " and is waiting for input"
 				}
 				e.logger.Debugf("Stage change for step %s to %s%s...", stepID, stage, waitingForInputText)
-				l.onStageComplete(stepID, previousStage, previousStageOutputID, previousStageOutput, wg)
+				l.onStageComplete(stepID, previousStage, previousStageOutputID, previousStageOutput, stage, false, wg)
 			},
 			onStepComplete: func(
 				_ step.RunningStep,
@@ -159,7 +161,7 @@ func (e *executableWorkflow) Execute(ctx context.Context, serializedInput any) (
 				} else {
 					e.logger.Debugf("Step %s completed with stage '%s'...", stepID, previousStage)
 				}
-				l.onStageComplete(stepID, &previousStage, previousStageOutputID, previousStageOutput, wg)
+				l.onStageComplete(stepID, &previousStage, previousStageOutputID, previousStageOutput, previousStage, true, wg)
 			},
 			onStepStageFailure: func(_ step.RunningStep, stage string, _ *sync.WaitGroup, err error) {
 				if err == nil {
@@ -307,6 +309,13 @@ type loopState struct {
 	dag               dgraph.DirectedGraph[*DAGItem]
 	callableFunctions map[string]schema.CallableFunction
 	runningSteps      map[string]step.RunningStep
+	// completedSteps holds the steps whose completion has been handled by the run loop. A step publishes
+	// its finished state before it reports its completion; until the report has been handled the step
+	// still has something to say and must not be counted as idle.
+	completedSteps map[string]struct{}
+	// notifiedStages holds, per step, the stage the run loop was last told about. A step publishes a new
+	// stage before it reports the change; while the two differ the step is in transition, not idle.
+	notifiedStages    map[string]string
 	outputDataChannel chan outputDataType
 	outputDone        bool
 	// waitingOutputs keeps track of all workflow output nodes to know when the workflow fails.
@@ -384,9 +393,15 @@ func (l *loopState) onStageComplete(
 	previousStage *string,
 	previousStageOutputID *string,
 	previousStageOutput *any,
+	currentStage string,
+	stepCompleted bool,
 	wg *sync.WaitGroup,
 ) {
 	l.lock.Lock()
+	l.notifiedStages[stepID] = currentStage
+	if stepCompleted {
+		l.completedSteps[stepID] = struct{}{}
+	}
 	defer func() {
 		if previousStage != nil {
 			l.checkForDeadlocks(3, wg)
@@ -650,12 +665,25 @@ func (l *loopState) countStates() (counters stateCounters) {
 			counters.starting++
 			l.logger.Debugf("Step %s is currently starting.", stepID)
 		case step.RunningStepStateWaitingForInput:
+			if runningStep.CurrentStage() != l.notifiedStages[stepID] {
+				// About to report that it reached this stage (which is what makes the run loop provide
+				// the input it waits for): in transition, not idle, however long that takes.
+				counters.running++
+				l.logger.Debugf("Step %s is waiting in a stage it has not reported yet.", stepID)
+				break
+			}
 			counters.waiting++
 			l.logger.Debugf("Step %s is currently waiting.", stepID)
 		case step.RunningStepStateRunning:
 			counters.running++
 			l.logger.Debugf("Step %s is currently running.", stepID)
 		case step.RunningStepStateFinished:
+			if _, completionHandled := l.completedSteps[stepID]; !completionHandled {
+				// About to report its completion: not idle, however long that takes.
+				counters.running++
+				l.logger.Debugf("Step %s is finished and about to report its completion.", stepID)
+				break
+			}
 			counters.finished++
 			l.logger.Debugf("Step %s is currently finished.", stepID)
 		}
